@@ -100,6 +100,28 @@ let obs_eval (text : z list) (off : z) (hosts : ostring) (data : ostring) : ostr
     obs_state out st
   | _ -> "parse-error"
 
+(* EF: the float64 handed back by the public entry point, as its bit pattern *)
+let hex16_of_z (n : z) : ostring =
+  let digits = "0123456789abcdef" in
+  let sixteen = z_of_dec "16" in
+  let b = Bytes.make 16 '0' in
+  let r = ref n in
+  for i = 15 downto 0 do
+    let (q, m) = (match Z.div_eucl !r sixteen with (q, m) -> (q, m)) in
+    Bytes.set b i digits.[int_of_z m]; r := q
+  done; Bytes.to_string b
+
+let obs_float_exit (text : z list) (off : z) (hosts : ostring) (data : ostring) : ostring =
+  match parse_source text with
+  | Accepted e ->
+    let hs = hosts_of_spec hosts in
+    let this = if data = "-" then None else (match value_of_wire data with VMap m -> Some m | _ -> None) in
+    (match eval hs off (strip e) { r_this = this; r_trace = [] } with
+     | (Ok (VNum d), _) -> "F" ^ hex16_of_z (f64_bits (f64_of_dec d))
+     | (Unk, _) -> "U"
+     | _ -> "U")
+  | _ -> "parse-error"
+
 let obs_field_list (l : z list list option) : ostring =
   match l with
   | None -> "E"
@@ -166,6 +188,7 @@ let run_case (fields : ostring list) : ostring =
   | ["PA"; text] -> obs_parse (bytes_of_hex text)
   | ["EV"; text; off; hosts; data] -> obs_eval (bytes_of_hex text) (z_of_dec off) hosts data
   | "NOP" :: _ -> "-"
+  | ["EF"; text; off; hosts; data] -> obs_float_exit (bytes_of_hex text) (z_of_dec off) hosts data
   | ["TD"; ns; off] ->   (* toDay as a function of one clock reading *)
     let t = today_of { t_ns = z_of_dec ns; t_off = z_of_dec off } in
     Printf.sprintf "%s:%s" (string_of_zint t.t_ns) (string_of_zint t.t_off)
